@@ -347,6 +347,25 @@ def pick_reporting_limits(side, pool, t, force):
     return thr, (maxd if maxd > 0 else d)
 
 
+def pick_big_limits(side, pool, cross, t):
+    """As pick_reporting_limits (with near misses of both kinds), and the near miss of the reporting threshold includes a pair on
+    both sides of the batch boundary: the threshold lies above the lowest similarity (>= Type-4) of such a pair.  cross: the
+    [(sim, dist)] of the pairs with one fragment before and one after the boundary."""
+    xs = sorted({s for s, _ in cross if s >= t[3]})
+    if not xs:
+        return None
+    above = [s for s in sorted({s for s, _ in pool}) if s > xs[0]]
+    side.shuffle(above)
+    for s in above:
+        thr = min(1.0, s + side.choice([0.0, 0.0, EPS40, -EPS40]))
+        ds = sorted({d for x, d in pool if x >= thr and d > 0})
+        if thr > xs[0] and len(ds) >= 2:
+            d = side.choice(ds[:-1])
+            maxd = d + side.choice([0.0, 0.0, EPS40, -EPS40])
+            return thr, (maxd if maxd > 0 else d)
+    return None
+
+
 def plan_path_runs(side, projects, probes, thorough):
     """Detector-level runs on the generated projects with a small BatchSizeThreshold (the public entry point batches), reporting threshold
     and MaxEditDistance on / next to observed values; every detection path of the hook (standard loop, public entry point, batched
@@ -498,6 +517,7 @@ def run_big_project(ck, side, base, thorough):
         files, pres = files[:keep], pres[:keep]
         out.update(texts=dict(files), items=[it for it in items if it["path"] in dict(files)], probe={f[0]: pr for f, pr in zip(files, pres)})
         d = os.path.join(base, "big")
+        shutil.rmtree(d, ignore_errors=True)
         for p, txt in files:
             os.makedirs(os.path.dirname(os.path.join(d, p)), exist_ok=True)
             with open(os.path.join(d, p), "w") as f:
@@ -513,13 +533,22 @@ def run_big_project(ck, side, base, thorough):
             return dict(out, error="pyscn analyze produced no clone report for the big project (rc=%s): %s" % (rc, (err or "")[-200:]))
         out["lenient"] = data["clone"]
         pool = [(p["similarity"], p["distance"]) for p in (data["clone"]["clone_pairs"] or [])]
-        for _ in range(30):
+        # fragment positions in the order the files were analysed: which reported pairs straddle the batch boundary
+        fidx, k = {}, 0
+        for path in data["clone"]["request"]["paths"]:
+            for f in out["probe"][path]["frags"]:
+                fidx[(f["file"], f["start"], f["end"])] = k
+                k += 1
+        at = [(fidx.get(loc_of(p["clone1"]), -1), fidx.get(loc_of(p["clone2"]), -1)) for p in (data["clone"]["clone_pairs"] or [])]
+        cross = [pool[i] for i, (a, b) in enumerate(at) if min(a, b) >= 0 and max(a, b) >= 100 > min(a, b)]
+        lim = None
+        for _ in range(60):
             t = cc.rand_thresholds(side, [x for x, _ in pool])
-            if t[3] >= 0.5:
+            lim = pick_big_limits(side, pool, cross, t) if t[3] >= 0.5 else None
+            if lim:
                 break
-        else:
-            t = [0.85, 0.75, 0.7, 0.65]
-        lim = pick_reporting_limits(side, pool, t, force=True) or (0.9, 3.0)
+        if not lim:
+            return dict(out, error="generator: the big project has no near miss on both sides of the batch boundary (%d pairs of the lenient run straddle it)" % len(cross))
         how = side.choice(["file", "flag"])
         k = side.random()
         min_sim, max_sim = (0.0, 1.0) if k < 0.7 else (side.choice([x for x, _ in pool] or [0.7]), 1.0)
